@@ -425,7 +425,8 @@ def apply_mutation(m, label, W):
             c["ext"] = W.choice([b";a =b", b";a= b"])
             V = either()
         elif label == "cdata_no_crlf":
-            c["term"] = W.choice([b"XX", b"X\r\n", b"", b"X\n", b"\rX", b"\n\n", b"\r\r", b"\n\r"])
+            c["term"] = W.choice([b"XX", b"X\r\n", b"", b"X\n", b"\rX", b"\n\n", b"\r\r", b"\n\r",
+                                  b"X-Pad: 1\r\n\r\n", b"Ab: c\r\n\r\n"])  # (the last two look like a trailer section)
         elif label == "cdata_lf_only":
             c["term"] = b"\n"
         elif label == "cdata_cr_only":
